@@ -30,7 +30,7 @@ FILE_NAMES = ["alpha", "shared", "item", "type", "kind", "common", "value", "pro
 ONEOF_NAMES = ["pick", "choice", "kind_of", "type", "source", "from"]
 PLAIN_FIELDS = ["name", "id", "alpha", "shared", "item", "kind", "proto", "value", "a", "b", "x", "node",
                 "display_name", "item_id", "a_1", "b2b", "common", "parent", "page_size", "etag", "x_y_z",
-                "al_shared", "timestamp", "status", "details", "key", "entry"]
+                "timestamp", "status", "details", "key", "entry"]
 RESERVED_FIELDS = ["type", "class", "import", "from", "in", "max", "format", "next", "list", "hash", "object",
                    "self", "cls", "license", "all", "not", "None", "True", "zip", "mapping", "ignore_unknown_fields"]
 EXT_MSGS = ["google.protobuf.Timestamp", "google.protobuf.Duration", "google.protobuf.Any", "google.protobuf.Struct",
@@ -275,7 +275,67 @@ def gen_spec(r, big=False, shadow_bias=0.0):
             for m, path in all_msgs(top, []):
                 full = ".".join([pkg] + path)
                 fill_fields(r, m, full, path, local_m, local_e, earlier_m, earlier_e, ext_msgs, ext_enums, big, syms, pkg)
-    return spec
+    while True:
+        try:
+            context_cost(spec, 9000)
+            return spec
+        except _TooDense:
+            thin(spec, r)
+
+
+class _TooDense(Exception):
+    pass
+
+
+EXT_COST = {"google.protobuf.Struct": 8, "google.protobuf.Value": 8, "google.rpc.Status": 3, "google.longrunning.Operation": 7,
+            "google.api.HttpRule": 4}
+
+
+def context_cost(spec, cap):
+    """estimate of the MessageType.with_context calls API.build makes for this file set (it walks every simple
+    path of the message reference graph, twice: once per pass over the protos); raises _TooDense above `cap`"""
+    syms = symbols(spec)
+    count = 0
+
+    def visit(full, visited, skip):
+        nonlocal count
+        count += 2
+        if count > cap:
+            raise _TooDense()
+        s = syms[full]["spec"]
+        visited = visited | {full}
+        for fl in s["fields"]:
+            if fl["type"] != "message":
+                continue
+            ismap = fl["card"] == "map"
+            if fl.get("ref") in syms:
+                if not skip:
+                    count += 2 if ismap else 0
+                    visit(fl["ref"], visited, fl["ref"] in visited)
+                if ismap:                       # the entry message is also a nested message of this one
+                    count += 2
+                    if not skip:
+                        visit(fl["ref"], visited, fl["ref"] in visited)
+            else:
+                count += 2 * EXT_COST.get(fl.get("ref"), 1) * (2 if ismap else 1)
+        for n in s["messages"]:
+            visit(full + "." + n["name"], visited, skip)
+    for full, s in syms.items():
+        if s["kind"] == "message":
+            visit(full, frozenset(), False)
+    return count
+
+
+def thin(spec, r):
+    """replace about a third of the in-package message references that are not self references by scalars"""
+    syms = symbols(spec)
+    for full, s in syms.items():
+        if s["kind"] != "message":
+            continue
+        for fl in s["spec"]["fields"]:
+            if fl["type"] == "message" and fl.get("ref") in syms and fl["ref"] != full and r.maybe(0.34):
+                fl["type"] = r.pick(SCALARS)
+                del fl["ref"]
 
 
 def pick_target(r, kind, full, path, local, earlier, extern, syms, pkg):
@@ -571,7 +631,8 @@ def model_module_op(spec, f):
             msgs.append({"path": path, "fields": [model_field(spec, syms, full, fl) for fl in m["fields"]]})
     return {"op": "c02.module", "version": version_of(pkg), "package": pkg.split("."), "module": f["name"],
             "collisions": file_collisions(spec, f), "order": [e["name"] for e in f["enums"]] + [m["name"] for m in f["messages"]],
-            "types": types, "messages": msgs}
+            "types": types, "enums": [s["path"] for s in syms.values() if s["file"] == f["name"] and s["kind"] == "enum"],
+            "messages": msgs}
 
 
 # --------------------------------------------------------------------------------------------- one case
@@ -624,9 +685,13 @@ def run_spec(ctx, r, spec, label, nvals=None):
     syms = symbols(spec)
     shadows = shadow_refs(spec)
     payload = {"spec": spec}
-    api, _ = genrun.build_api(req)
+    try:
+        api, opts = genrun.build_api(req)
+    except BaseException as e:  # noqa
+        ctx.fail("generation-crash:" + genrun.crash_signature(e), f"API.build raised {type(e).__name__}: {str(e)[:300]}", payload)
+        return
     t2(ctx, spec, syms, api, payload)
-    res, err = genrun.try_generate(req)
+    res, err = generate_from(api, opts)
     if err:
         ctx.fail("generation-crash:" + err[0], f"generator raised {err[0]}: {err[1]}", payload)
         return
@@ -671,19 +736,31 @@ def imports_module_named_proto(spec):
     return False
 
 
+def generate_from(api, opts):
+    """the statements of genrun.generate_inproc after API.build (the schema of this case is built once)"""
+    import warnings
+    from gapic import generator
+    try:
+        with warnings.catch_warnings():
+            warnings.simplefilter("ignore")
+            return generator.Generator(opts).get_response(api, opts), None
+    except BaseException as e:  # noqa
+        return None, (genrun.crash_signature(e), str(e)[:300])
+
+
 def classify_import_error(err, shadows, spec=None):
     if spec is not None and err["type"] == "AttributeError" and "has no attribute" in err["msg"] and \
             ".types.proto'" in err["msg"] and imports_module_named_proto(spec):
         return "types-module-named-proto"
-    if err["type"] == "NameError":
-        for (_, _, bare) in shadows:
-            if err["msg"] == f"name '{bare.split('.')[0]}' is not defined":
-                return "nested-ref-unquoted"
-    if err["type"] == "AttributeError" and shadows:
-        for (_, _, bare) in shadows:
-            parts = bare.split(".")
-            if len(parts) > 1 and any(f"'{p}'" in err["msg"] for p in parts[1:]):
-                return "nested-ref-unquoted"
+    text = (err.get("text") or "").strip()
+    for (ctx_full, _, bare) in shadows:
+        # the bare name is unbound (NameError), bound to a class without the attribute (AttributeError), or bound to a
+        # class of the wrong kind (AttributeError/TypeError raised while the enclosing class is created)
+        if err["type"] == "NameError" and err["msg"] == f"name '{bare.split('.')[0]}' is not defined":
+            return "nested-ref-unquoted"
+        if err["type"] in ("AttributeError", "TypeError") and (text in (f"message={bare},", f"enum={bare},")
+                                                               or text.startswith(f"class {ctx_full.rsplit('.', 1)[-1]}(")):
+            return "nested-ref-unquoted"
     return "import-error:" + err["type"]
 
 
@@ -701,7 +778,7 @@ def compare(ctx, spec, syms, files, out, model, trips, codec, shadows, payload):
         ctx.count("import", err["type"])
         ctx.fail(classify_import_error(err, shadows, spec),
                  f"importing the emitted types package raises {err['type']}: {err['msg']} ({err['module']}:{err['line']}: {err['text']})", payload)
-        if pred_import not in (err["type"], "unresolved" if err["type"] == "TypeError" else err["type"]):
+        if pred_import == "ok" or (pred_import in ("NameError", "AttributeError") and pred_import != err["type"]):
             ctx.disagree("T3:c02.import", f"model predicts import {pred_import}, implementation raised {err['type']}: {err['msg']}", payload)
         return
     ctx.count("import", "ok")
@@ -1063,13 +1140,15 @@ def run(ctx):
     ctx.assume("no custom json_name option (the statement asks for the standard lowerCamel mapping); message, enum, "
                "enum-value, oneof and file names are not Python keywords; oneof names do not start with an underscore; "
                "target-package module names do not end in _pb2 (DESIGN 7.2 forced hypothesis)")
+    ctx.assume("no field carries the alias the generator derives for a colliding module (<package initials>_<module>), "
+               "the name <module>_pb2 of an imported dependency module, or the name of a Python builtin used as a bare class name")
     ctx.assume("no field is named <reserved word>_ next to a field named <reserved word> (protoc rejects the JSON-name conflict)")
     t2_tables(ctx)
     r = ctx.rng("types")
     for fn, payload in corpus_specs():
         run_spec(ctx, r, payload["spec"], "corpus:" + fn)
     run_spec(ctx, r, coverage_spec(), "coverage", nvals=ctx.n(3, 8))
-    n = ctx.n(26, 700)
+    n = ctx.n(40, 700)
     for i in range(n):
         run_spec(ctx, r, gen_spec(r, big=(i % 5 == 4)), f"gen{i}")
 
